@@ -30,6 +30,15 @@ import (
 func c10Run(c *vt.Ctx, s c10Scenario) { c10RunOpt(c, s, false) }
 
 func c10RunOpt(c *vt.Ctx, s c10Scenario, noGuard bool) {
+	// process configuration: the zone of the controller process (time.Local is a package variable)
+	savedLocal := time.Local
+	defer func() { time.Local = savedLocal }()
+	if s.TZ == 0 {
+		time.Local = time.UTC
+	} else {
+		time.Local = time.FixedZone(fmt.Sprintf("UTC%+d", s.TZ), s.TZ*3600)
+		c.Labelf("tz:%+d", s.TZ)
+	}
 	w := c10NewWorld(c, s)
 	w.noGuard = noGuard
 	w.seed()
@@ -338,6 +347,7 @@ func c10GenLoop(t *rapid.T) c10Scenario {
 	s.Dual = rapid.Bool().Draw(t, "dual")
 	s.Cards = rapid.IntRange(1, 2).Draw(t, "cards")
 	s.AgeOld = rapid.Bool().Draw(t, "age_old")
+	s.TZ = rapid.SampledFrom([]int{0, 0, 0, 8, -8}).Draw(t, "tz")
 	np := rapid.IntRange(1, vt.Scale(3, 4)).Draw(t, "npods")
 	state := make([]string, np)
 	for i := 0; i < np; i++ {
@@ -556,6 +566,7 @@ func c11GenRetention(t *rapid.T) c10Scenario {
 
 func c11GenLeak(t *rapid.T) c10Scenario {
 	s := c10Scenario{Trunk: rapid.Bool().Draw(t, "trunk"), Cards: 1}
+	s.TZ = rapid.SampledFrom([]int{0, 0, 8, 1, -8, -5}).Draw(t, "tz")
 	n := rapid.IntRange(1, vt.Scale(8, 12)).Draw(t, "nenis")
 	m := rapid.SampledFrom([]int{3, 5, 20}).Draw(t, "margin")
 	var wantRef []int
@@ -622,8 +633,13 @@ func c11GenLeak(t *rapid.T) c10Scenario {
 
 func TestVerifC10ClosedLoop(t *testing.T) { vt.Run(t, c10GenLoop, c10Run) }
 func TestVerifC11ClosedLoop(t *testing.T) { vt.Run(t, c10GenLoopFixed, c10Run) }
-func TestVerifC11Retention(t *testing.T)  { vt.Run(t, c11GenRetention, c10Run) }
-func TestVerifC11LeakGC(t *testing.T)     { vt.Run(t, c11GenLeak, c10Run) }
+
+// C10 over seeded mid-life states: the retention generator's populations (records in every phase,
+// backdated podLastSeen so that the TTL collector really gives fixed-IP records up) with both
+// reconcilers in the history - the closed loop cannot reach "fixed-IP record in Deleting"
+func TestVerifC10SeededStates(t *testing.T) { vt.Run(t, c11GenRetention, c10Run) }
+func TestVerifC11Retention(t *testing.T)    { vt.Run(t, c11GenRetention, c10Run) }
+func TestVerifC11LeakGC(t *testing.T)       { vt.Run(t, c11GenLeak, c10Run) }
 
 // c10GenLoopFixed is the closed-loop generator restricted to pods whose first interface
 // has a fixed IP (C11 a: recreation under the same name).
